@@ -51,6 +51,10 @@ func (e *LastExpr) Evaluate(engine *Engine, input interface{}, args []*Statement
 		return nil, err
 	}
 
+	if x < 0 {
+		return nil, fmt.Errorf("function Last() cannot take %d items", x)
+	}
+
 	if x == 0 {
 		return in.Slice(0, 0).Interface(), nil
 	}
